@@ -38,6 +38,7 @@ fn main() {
     let mut ctx = Ctx { tier, seed, model, ev: Default::default(), replay };
     let t0 = std::time::Instant::now();
     match prop.as_str() {
+        "C01" => props::c01::run(&mut ctx),
         "C02" => props::c02::run(&mut ctx),
         "C04" => props::c04::run(&mut ctx),
         "C07" => props::c07::run(&mut ctx),
